@@ -21,8 +21,7 @@ def main():
     ck.prove()
     exe = vlib.build_harness("C01")
     model = vlib.build_model("C01")
-    S = sc.Session(ck, exe, model)
-    nlp, ncfg, nmax = (110, 4, 12) if ck.tier == "quick" else (2500, 8, 30)
+    nlp, ncfg, nmax = (110, 4, 12) if ck.tier == "quick" else (1200, 6, 25)
     r = ck.rng
     lps = []
     for _ in range(nlp):
@@ -40,19 +39,18 @@ def main():
         corpus = [(lpgen.parse_lp_text(rp["lp"]), [rp.get("config", {})])]
         lps = []
     lps = [c[0] for c in corpus] + lps
-    classes, exs = S.classify(lps)
     cfgs = {k: [{}] + [lpgen.rand_config(r) for _ in range(ncfg)] for k in range(len(lps))}
     for k, c in enumerate(corpus):
         cfgs[k] = [{}] + c[1]
-    runs, rc, crashed = S.run(lps, cfgs)
-    if crashed is not None:
-        k, c = crashed
+    classes, exs, runs, ans, crashes, skipped = sc.run_in_chunks(ck, exe, model, lps, cfgs)
+    for (k, c, rc) in crashes:
         ck.violation("crash:" + lpgen.cfg_text({a: b for a, b in cfgs[k][c].items() if a in ("starter", "pricer", "factor_update_type")}),
                      "the solver crashed (rc=%d) on LP %d under %s" % (rc, k, cfgs[k][c]),
                      {"lp": lps[k].text("replay"), "lp_format": lps[k].lp_format(), "config": cfgs[k][c], "kind": "crash"})
-    ans = S.judge_queries(lps, runs)
     worst = {}
     for k, p in enumerate(lps):
+        if k in skipped:
+            continue
         cl = classes[k]
         for ru in runs[k]:
             c = int(ru["_id"].split("!")[0])
